@@ -41,6 +41,17 @@ type c11core struct {
 	fields int
 }
 
+// c11accept accepts everything and writes nothing.
+type c11accept struct{}
+
+func (c11accept) Enabled(zapcore.Level) bool          { return true }
+func (k c11accept) With([]zapcore.Field) zapcore.Core { return k }
+func (k c11accept) Check(e zapcore.Entry, ce *zapcore.CheckedEntry) *zapcore.CheckedEntry {
+	return ce.AddCore(e, k)
+}
+func (c11accept) Write(zapcore.Entry, []zapcore.Field) error { return nil }
+func (c11accept) Sync() error                                { return nil }
+
 // c11fixed: a clock that stamps every entry of one logger with one time.
 type c11fixed struct{ t time.Time }
 
@@ -219,6 +230,12 @@ func runC11(c *Ctx) {
 		}
 	}
 	viaLogger := g.Chance(4)
+	// one run in four: the sampler is not the first core to see an entry (the
+	// second branch of a tee: the CheckedEntry it is handed is not nil)
+	afterAnother := g.Chance(4)
+	if afterAnother {
+		c.R.Probe("sampler checked after another core accepted the entry")
+	}
 	if viaLogger {
 		c.Describe("entries are logged through a zap.Logger over the sampler")
 		c.R.Probe("entries logged through a zap.Logger over the sampler")
@@ -461,12 +478,20 @@ func runC11(c *Ctx) {
 			// the way applications reach a sampler: through a Logger over it (its
 			// clock stamps the entry; terminal actions replaced by hooks that
 			// return, so that Panic and Fatal entries can be repeated)
-			lg := zap.New(core, zap.WithClock(c11fixed{e.t}), zap.WithPanicHook(c06quiet{}), zap.WithFatalHook(c06quiet{})).Named(fmt.Sprint(e.id))
+			lcore := core
+			if afterAnother {
+				lcore = zapcore.NewTee(c11accept{}, core)
+			}
+			lg := zap.New(lcore, zap.WithClock(c11fixed{e.t}), zap.WithPanicHook(c06quiet{}), zap.WithFatalHook(c06quiet{})).Named(fmt.Sprint(e.id))
 			lg.Log(e.lvl, c11msgs[e.msg])
 			return
 		}
 		ent := zapcore.Entry{Level: e.lvl, Message: c11msgs[e.msg], Time: e.t, LoggerName: fmt.Sprint(e.id)}
-		if ce := core.Check(ent, nil); ce != nil {
+		var ce *zapcore.CheckedEntry
+		if afterAnother {
+			ce = ce.AddCore(ent, c11accept{}) // as the second branch of a tee: another core has accepted already
+		}
+		if ce = core.Check(ent, ce); ce != nil {
 			ce.Write()
 		}
 	}
